@@ -19,6 +19,7 @@ from ..regexeq import equivalent
 from ..facts import walk_body, walk, loc, peel, callee_name
 from ..tables import simple_enum_table, literal_to_value_table
 from ..census import local_of
+from . import c07_actions as CA
 
 LEVEL = "other"
 
@@ -45,8 +46,17 @@ def _all_symbols(syms):
             yield from _all_symbols(sy.group)
 
 
-def op_symbols(g, rule_name):
-    """operator nonterminal → {terminal text: Operator variant}"""
+def _alt_value(fx, g, rule_name, a):
+    """the single value an alternative builds (same in every instantiation), else None"""
+    per, probs = CA.alt_values(fx, g, rule_name, a)
+    vs = set().union(*per.values()) if per else set()
+    if probs or len(vs) != 1:
+        return None
+    return next(iter(vs))
+
+
+def op_symbols(g, rule_name, fx=None):
+    """operator nonterminal → {terminal text: Operator variant} (the variant is the value the alternative builds)"""
     r = g.rules.get(rule_name)
     out = {}
     if not r:
@@ -57,15 +67,15 @@ def op_symbols(g, rule_name):
         t = g.terminal_pattern(a.symbols[0].ref)
         if not t or t["regex"]:
             return None
-        act = a.action.strip()
-        if not act.startswith("Operator::"):
+        v = _alt_value(fx, g, rule_name, a)
+        if not v or v[0] != "C" or not v[1].startswith("Operator::"):
             return None
-        out[t["pattern"]] = act.split("::", 1)[1].strip()
+        out[t["pattern"]] = v[1].split("::", 1)[1]
     return out
 
 
-def op_symbols_deep(g, rule_name, seen=()):
-    """like op_symbols, but alternatives may delegate to other operator nonterminals (`XOperator => <>`)"""
+def op_symbols_deep(g, rule_name, fx=None, seen=()):
+    """like op_symbols, but alternatives may delegate to other operator nonterminals (handing their value on)"""
     r = g.rules.get(rule_name)
     if not r or rule_name in seen:
         return None
@@ -74,20 +84,20 @@ def op_symbols_deep(g, rule_name, seen=()):
         if len(a.symbols) != 1 or a.symbols[0].kind != "nt":
             return None
         ref = a.symbols[0].ref
-        act = a.action.strip()
         t = g.terminal_pattern(ref)
-        if t and not t["regex"] and act.startswith("Operator::"):
-            sub = {t["pattern"]: act.split("::", 1)[1].strip()}
-        elif ref in g.rules and act in ("<>", ""):
-            sub = op_symbols_deep(g, ref, seen + (rule_name,))
+        v = _alt_value(fx, g, rule_name, a)
+        if t and not t["regex"] and v and v[0] == "C" and v[1].startswith("Operator::"):
+            sub = {t["pattern"]: v[1].split("::", 1)[1]}
+        elif ref in g.rules and v == CA._freeze(CA.P(0)):
+            sub = op_symbols_deep(g, ref, fx, seen + (rule_name,))
             if sub is None:
                 return None
         else:
             return None
-        for k, v in sub.items():
-            if k in out and out[k] != v:
+        for k, v2 in sub.items():
+            if k in out and out[k] != v2:
                 return None
-            out[k] = v
+            out[k] = v2
     return out
 
 
@@ -136,9 +146,9 @@ def run(ck, fx, cg, tier):
             ck.ob("R7.strata", key, False, where, "level is not `head:%s (Op %s)*`: %s" % (lower, lower, syms))
             continue
         opnt = syms[1].group[0].ref
-        ops = op_symbols(g, opnt)
+        ops = op_symbols(g, opnt, fx)
         if ops is None:
-            ck.ob("R7.strata", key, False, where, "operator nonterminal %s is not a list of `TERMINAL => Operator::X`" % opnt)
+            ck.ob("R7.strata", key, False, where, "operator nonterminal %s is not a list of fixed tokens each building one Operator variant" % opnt)
             continue
         ck.ob("R7.strata", key, set(ops) == want_ops, where,
               "%s binds %s over %s; S6 says %s%s" % (level, sorted(ops), lower, sorted(want_ops),
@@ -147,11 +157,6 @@ def run(ck, fx, cg, tier):
             if t in all_ops:
                 ck.ob("R7.strata", "operator %s at one level" % t, False, where, "operator %s occurs at two levels" % t)
             all_ops[t] = v
-        # action: left fold
-        hb, tb = syms[0].binder, syms[1].binder
-        act = "".join(a.action.split())
-        ck.ob("R7.assoc", level + " action", act == "AST::from_binary_expression(%s,%s)" % (hb, tb), where,
-              "action `%s`; expected from_binary_expression(%s, %s)" % (a.action.strip()[:60], hb, tb))
         ck.sample({"rule": "R7.strata", "level": level, "operators": sorted(ops), "lower": lower})
     ck.ob("R7.strata", "13 operators in total", len(all_ops) == 13, "", "%d operators placed: %s" % (len(all_ops), sorted(all_ops)))
     # Operand is the bottom: Accessible | Accessible.field chain
@@ -167,7 +172,7 @@ def run(ck, fx, cg, tier):
     # the operator *names* of `a.op(b)` and `function op (x)` come from the nonterminal `Operator`: the same table
     uses = [(rn, a.line) for rn, r in g.rules.items() for a in r.alts for sy in _all_symbols(a.symbols) if sy.kind == "nt" and sy.ref == "Operator"]
     if uses:
-        om = op_symbols_deep(g, "Operator")
+        om = op_symbols_deep(g, "Operator", fx)
         r_op = g.rules.get("Operator")
         where = "src/fml.lalrpop:%s" % (r_op.line if r_op else "?")
         if om is None:
@@ -177,42 +182,14 @@ def run(ck, fx, cg, tier):
             ck.ob("R7.spelling", "Operator nonterminal", not diff, where,
                   "method-call and definition forms name the 13 operators as the infix forms do" if not diff else
                   "`a.op(b)` / `function op (x)` name operators differently from infix `a op b` (terminal: (named, infix)): %s" % diff)
-    # ---------------------------------------------------------------- literals denote themselves
-    def alts_of(rule_name):
-        r = g.rules.get(rule_name)
-        out = {}
-        for a in (r.alts if r else []):
-            if len(a.symbols) == 1 and a.symbols[0].kind == "nt":
-                t = g.terminal_pattern(a.symbols[0].ref)
-                if t and not t["regex"]:
-                    out[t["pattern"]] = "".join(a.action.split())
-        return out, r
-    bl, r_b = alts_of("Boolean")
-    if ck.anchor("R7.literals", "rule Boolean", r_b):
-        ck.ob("R7.literals", "true / false", bl == {"true": "AST::boolean(true)", "false": "AST::boolean(false)"}, "src/fml.lalrpop:%d" % r_b.line,
-              "keyword ↦ action: %s; expected true ↦ AST::boolean(true), false ↦ AST::boolean(false)" % bl)
-    ul, r_u = alts_of("Unit")
-    if ck.anchor("R7.literals", "rule Unit", r_u):
-        ck.ob("R7.literals", "null", ul == {"null": "AST::null()"}, "src/fml.lalrpop:%d" % r_u.line, "keyword ↦ action: %s; expected null ↦ AST::null()" % ul)
-    r_n = g.rules.get("Number")
-    if ck.anchor("R7.literals", "rule Number", r_n):
-        acts = ["".join(a.action.split()) for a in r_n.alts]
-        okn = len(acts) == 1 and bool(re.fullmatch(r"AST::integer\((i32::from_str\(<>\)|<>\.parse(::<i32>)?\(\))\.(unwrap\(\)|expect\(\"[^\"]*\"\))\)", acts[0]))
-        ck.ob("R7.literals", "numbers", okn, "src/fml.lalrpop:%d" % r_n.line, "action %s; expected the digits parsed as an i32 and nothing else" % acts)
+    # ---------------------------------------------------------------- literals denote themselves (R7.tree: Boolean / Unit / Number / String rows)
     # string literals: the terminal and the action that strips the quotes (C15's lexer rules) — the literal's text is part of the tree
     _sh0 = __import__("engine.props.shared", fromlist=["x"])
     _sh0.presuppose(ck, fx, cg, "C15", lambda o: o["rule"] == "R15.lexer", "R7.literals", "string literals denote their text (terminal + quote-stripping action)", floor=2)
-    # ---------------------------------------------------------------- the constructors the actions call are plain
-    from . import shared as _sh
-    n_ctor = 0
-    for cname, okc, whyc in _sh.ast_constructors(fx):
-        n_ctor += 1
-        ck.ob("R7.ctors", "AST::" + cname, okc, "src/parser/mod.rs", whyc)
-    ck.floor("R7.ctors", "AST constructor helpers examined", n_ctor, 10)
-    # ---------------------------------------------------------------- left fold (HIR)
-    _left_fold(ck, fx)
-    # ---------------------------------------------------------------- sugar
-    _sugar(ck, g)
+    # ---------------------------------------------------------------- the tree every alternative builds
+    # (associativity = the accumulation each operator level and each field/call chain builds; a[i] / a[i] <- v; literals;
+    #  statement lists keep their first element in front)
+    CA.check(ck, fx, g)
     # ---------------------------------------------------------------- dangling else
     c = g.rules.get("Conditional")
     if ck.anchor("R7.else", "Conditional", c):
@@ -232,8 +209,7 @@ def run(ck, fx, cg, tier):
                 else_full = arg_of(full[0], "alternative")
                 cond_short = (short[0].cond or "").replace(" ", "")
                 ok = (then_full == ("Expression", ['"closed"']) and else_full == ("Expression", ["openness"]) and full[0].cond is None
-                      and cond_short == 'openness=="open"' and "".join(short[0].action.split()) == "AST::conditional(condition,consequent,AST::null())"
-                      and "".join(full[0].action.split()) == "AST::conditional(condition,consequent,alternative)")
+                      and cond_short == 'openness=="open"')
                 why = "then-branch of if/else is %s, else-branch %s, else-less form guarded by `%s`" % (then_full, else_full, short[0].cond)
         ck.ob("R7.else", "Conditional<openness>", ok, "src/fml.lalrpop:%d" % c.line, why)
         # every rule that forwards openness passes it on unchanged in tail position; nothing instantiates "closed" with the short form
@@ -284,106 +260,29 @@ def run(ck, fx, cg, tier):
     ck.ob("R7.unambiguous", "LALRPOP accepted the grammar", fx.skipped_non_src > 100, "", "the crate was built for this analysis; generated parser has %d bodies (build.rs process_root().unwrap() fails on conflicts)" % fx.skipped_non_src)
 
 
-def _left_fold(ck, fx):
-    b = fx.body("parser::AST::from_binary_expression")
-    if not ck.anchor("R7.assoc", "AST::from_binary_expression", b):
-        return
-    ck.fn(b["path"])
-    first = b["params"][0]["lid"] if b["params"][0].get("k") == "Binding" else None
-    tail = b["params"][1]["lid"] if b["params"][1].get("k") == "Binding" else None
-    ok = False
-    why = "no fold found"
-    for n, ps in walk_body(b):
-        if n.get("k") == "MethodCall" and n["name"] == "fold" and ((n.get("callee") or {}).get("def") or "").endswith("Iterator::fold"):
-            init = local_of(n["args"][0])
-            clo = peel(n["args"][1])
-            # receiver: the tail iterated forwards
-            rcv = peel(n["recv"])
-            fwd = rcv.get("k") == "MethodCall" and rcv["name"] in ("into_iter", "iter") and local_of(rcv["recv"]) and local_of(rcv["recv"])[0] == tail
-            step_ok = False
-            if clo.get("k") == "Closure" and len(clo["params"]) == 2:
-                acc = clo["params"][0]
-                acc_lid = acc.get("lid") if acc.get("k") == "Binding" else None
-                pair = clo["params"][1]
-                op_lid = right_lid = None
-                if pair.get("k") == "Tuple" and len(pair["pats"]) == 2:
-                    op_lid = pair["pats"][0].get("lid")
-                    right_lid = pair["pats"][1].get("lid")
-                body = peel(clo["body"])
-                if body.get("k") == "Block" and "expr" in body["block"] and not body["block"]["stmts"]:
-                    body = peel(body["block"]["expr"])
-                if body.get("k") == "Call" and callee_name(body) == "parser::AST::operation" and len(body["args"]) == 3:
-                    a0, a1, a2 = [local_of(x) for x in body["args"]]
-                    step_ok = bool(a0 and a1 and a2 and a0[0] == op_lid and a1[0] == acc_lid and a2[0] == right_lid)
-            ok = bool(init and init[0] == first and fwd and step_ok)
-            why = "fold over the tail forwards: %s; initial accumulator is the first operand: %s; step = operation(op, ACCUMULATOR, next): %s" % (
-                fwd, bool(init and init[0] == first), step_ok)
-    ck.ob("R7.assoc", "from_binary_expression is a left fold", ok, loc(b), why + ("" if ok else " — a op b op c would not group as (a op b) op c"))
-    # rfold / rev would be right-associative
-    for n, ps in walk_body(b):
-        if n.get("k") == "MethodCall" and n["name"] in ("rfold", "rev", "reduce"):
-            ck.ob("R7.assoc", "no reversal in from_binary_expression", False, loc(n), ".%s() changes the grouping" % n["name"])
-
-
-def _sugar(ck, g):
-    aa = g.rules.get("ArrayAccess")
-    if ck.anchor("R7.sugar", "ArrayAccess", aa):
-        ok = bool(aa.alts)
-        for a in aa.alts:
-            order = [s.binder for s in a.symbols if s.binder]
-            ok = ok and order == ["array", "index"] and "".join(a.action.split()) == "AST::access_array(array,index)"
-            ok = ok and [s.ref for s in a.symbols if not s.binder] == ["LBRACKET", "RBRACKET"]
-        ck.ob("R7.sugar", "a[i] → AccessArray{array, index}", ok, "src/fml.lalrpop:%d" % aa.line, "%d alternatives build access_array(array, index) from `array [ index ]`: %s" % (len(aa.alts), ok))
-    mu = g.rules.get("Mutation")
-    if ck.anchor("R7.sugar", "Mutation", mu):
-        idx = [a for a in mu.alts if any(s.ref == "LBRACKET" for s in a.symbols)]
-        ok = len(idx) == 2
-        for a in idx:
-            order = [s.binder for s in a.symbols if s.binder]
-            act = "".join(a.action.split())
-            ok = ok and order == ["array", "index", "v"] and act == "AST::AssignArray{array:Box::new(array),index:Box::new(index),value:Box::new(v)}"
-        ck.ob("R7.sugar", "a[i] <- v → AssignArray{array, index, value}", ok, "src/fml.lalrpop:%d" % mu.line, "%d index-assignment alternatives in source order: %s" % (len(idx), ok))
-    # field chains are left folds
-    n = 0
-    ok = True
-    for name in ("Operand", "Field", "Application", "Mutation"):
-        r = g.rules.get(name)
-        if not r:
-            continue
-        for a in r.alts:
-            if "fold(" in a.action:
-                n += 1
-                act = "".join(a.action.split())
-                ok = ok and (".into_iter().fold(object,|left,right|" in act) and ("rev()" not in act) and ("rfold" not in act)
-    ck.ob("R7.sugar", "field chains are left folds", ok and n >= 5, "", "%d chain actions fold from the object forwards: %s" % (n, ok))
-
-
 def _shape(ck, g):
-    # Block: non-empty child list
+    """grammar side conditions used by C02/C12 — the symbol structure; what the alternatives build is R7.tree"""
     blk = g.rules.get("Block")
     ex = g.rules.get("Expressions")
     ok = False
     if blk and ex:
-        builds = [a for a in blk.alts if "AST::block(" in a.action]
+        builds = [a for a in blk.alts if any(s.ref == "Expressions" for s in a.symbols)]
         ok = len(builds) == 1 and any(s.ref == "Expressions" and not s.rep for s in builds[0].symbols)
-        ok = ok and len(ex.alts) == 1 and ex.alts[0].symbols and ex.alts[0].symbols[0].kind == "nt" and ex.alts[0].symbols[0].rep == "" and "push_front(element)" in ex.alts[0].action
-    ck.ob("R7.shape", "Block children are non-empty", ok, "", "AST::block is built only from Expressions, which has a mandatory first element: %s" % ok)
-    others = [(n, a.line) for n, r in g.rules.items() for a in r.alts if ("AST::block(" in a.action or "AST::Block" in a.action) and n != "Block"]
-    ck.ob("R7.shape", "only Block builds AST::Block", not others, "", "other builders: %s" % (others or "none"))
+        ok = ok and len(ex.alts) == 1 and ex.alts[0].symbols and ex.alts[0].symbols[0].kind == "nt" and ex.alts[0].symbols[0].rep == ""
+    ck.ob("R7.shape", "Block children are non-empty", ok, "", "a block's list comes from Expressions, which has a mandatory first element (kept in front: R7.tree): %s" % ok)
+    users = sorted({n for n, r in g.rules.items() for a in r.alts for ref, args in g.refs(a) if ref == "Expressions"})
+    ck.ob("R7.shape", "only Block uses Expressions", users == ["Block"], "", "Expressions referenced from: %s" % users)
     top = g.rules.get("TopLevel")
     tle = g.rules.get("TopLevelExpressions")
     ok = False
     if top and tle:
-        acts = ["".join(a.action.split()) for a in top.alts]
-        ok = sorted(acts) == sorted(["AST::top(expressions)", "AST::top(vec![AST::null()])"]) and top.public
-        ok = ok and len(tle.alts) == 1 and tle.alts[0].symbols[0].rep == "" and "push_front(element)" in tle.alts[0].action
-    ck.ob("R7.shape", "root is Top with a non-empty child list", ok, "", "both TopLevel alternatives build AST::top of a non-empty list: %s" % ok)
-    tops = [(n, a.line) for n, r in g.rules.items() for a in r.alts if ("AST::top(" in a.action or "AST::Top" in a.action) and n != "TopLevel"]
-    ck.ob("R7.shape", "only TopLevel builds AST::Top", not tops, "", "other builders: %s" % (tops or "none"))
+        ok = top.public and len(top.alts) == 2 and sorted(len(a.symbols) for a in top.alts) == [0, 1]
+        ok = ok and len(tle.alts) == 1 and tle.alts[0].symbols[0].rep == ""
+    ck.ob("R7.shape", "root is Top with a non-empty child list", ok, "", "TopLevel is the public start symbol; its list has a mandatory first element or is [null] (R7.tree): %s" % ok)
+    tops = sorted({n for n, r in g.rules.items() for a in r.alts for ref, args in g.refs(a) if ref in ("TopLevel", "TopLevelExpressions")})
+    ck.ob("R7.shape", "only TopLevel builds AST::Top", set(tops) <= {"TopLevel"}, "", "TopLevel / TopLevelExpressions referenced from: %s" % tops)
     users = sorted({n for n, r in g.rules.items() for a in r.alts for ref, args in g.refs(a) if ref in ("FunctionDefinition", "OperatorDefinition")})
     ck.ob("R7.shape", "functions occur only at top level or as object members", set(users) <= {"TopLevelExpression", "Member"}, "", "FunctionDefinition/OperatorDefinition referenced from: %s" % users)
     mem = g.rules.get("Member")
     refs = sorted({ref for a in mem.alts for ref, args in g.refs(a)}) if mem else []
     ck.ob("R7.shape", "object members are fields or functions", refs == ["Assignment", "FunctionDefinition", "OperatorDefinition"], "", "Member ::= %s" % refs)
-    fn_builders = sorted({n for n, r in g.rules.items() for a in r.alts if "AST::function(" in a.action or "AST::operator(" in a.action or "AST::Function" in a.action})
-    ck.ob("R7.shape", "only the definition rules build AST::Function", set(fn_builders) <= {"FunctionDefinition", "OperatorDefinition"}, "", "builders: %s" % fn_builders)
